@@ -1,5 +1,6 @@
 import Driver.QuadCmd
 import Driver.MeshCmd
+import Driver.FormulaCmd
 /- stbem-driver: one protocol line in, one canonical line out. -/
 open Driver
 
@@ -11,6 +12,7 @@ def dispatch (st : St) (line : String) : St × String :=
   match args with
   | [] => (st, "")
   | "q1" :: _ | "q2" :: _ | "q3" :: _ | "slo" :: _ => (st, quadCmd args)
+  | "fm" :: _ => (st, formulaCmd args)
   | "mesh" :: _ => let r := meshCmd st.mesh args; ({ st with mesh := r.1 }, r.2)
   | _ => (st, "bad-op")
 
